@@ -23,6 +23,9 @@ import (
 	"verifharness/kit/pk"
 
 	"github.com/polynetwork/poly/common"
+	"github.com/polynetwork/poly/common/config"
+	"github.com/polynetwork/poly/core/store/ledgerstore"
+	"github.com/polynetwork/poly/core/types"
 	"github.com/polynetwork/poly/consensus/vbft"
 	"github.com/polynetwork/poly/native"
 	"github.com/polynetwork/poly/native/service/cross_chain_manager/consensus_vote"
@@ -44,7 +47,7 @@ func govThreshold(n int) int {
 func TestC42(t *testing.T) {
 	r := kit.Start(t, "C42", "exploration")
 	defer r.Finish()
-	r.Rule("boundary probing of the real threshold users for every N in the probed range (accept at exactly the formula value, refuse one below): ledger verifyHeader N=1..24 quick / 1..40 thorough x {new rule, legacy rule} x {header path, block path}; CheckConsensusSigns / CheckVotes / CheckSigns N=1..64 quick / 1..256 thorough; vbft getCommitConsensus N=2..64 / 2..256 (three message shapes, C from the node's chain config); plus the arithmetic intersection sweep N=1..10000; evaluation = one boundary verdict or one N of the sweep; distinct = (function, N, side)")
+	r.Rule("boundary probing of the real threshold users for every N in the probed range (accept at exactly the formula value, refuse one below): ledger verifyHeader N=1..24 quick / 1..40 thorough x {new rule, legacy rule} x {header path, block path}, and the bookkeeper rule of non-vbft chains (header path; 1, a random count below and one below the formula refused, the formula value accepted); CheckConsensusSigns / CheckVotes / CheckSigns N=1..64 quick / 1..256 thorough; vbft getCommitConsensus N=2..64 / 2..256 (three message shapes, C from the node's chain config); plus the arithmetic intersection sweep N=1..10000; evaluation = one boundary verdict or one N of the sweep; distinct = (function, N, side)")
 	r.Exhaustive(false)
 	r.Assume("the statement for ALL N >= 1 is a theorem; this check samples it: implemented formulas are inline expressions and are observed only for the probed N, the sweep to 10000 is arithmetic done by the checker")
 	r.Assume("the intersection claim is asserted only for N-f and ceil(2N/3); the legacy ledger rule N - floor(6N/7) is probed for equality with its formula but NOT for intersection (it does not provide it)")
@@ -136,6 +139,68 @@ func TestC42(t *testing.T) {
 			os.RemoveAll(dir)
 		}
 		probedLedger = append(probedLedger, n)
+	}
+
+	// ---------------- ledger verifyHeader, bookkeeper rule (genesis consensus type other than vbft):
+	// the header lists all N bookkeepers named by the previous header's NextBookkeeper and carries
+	// k signatures; accepted exactly from k = N - floor((N-1)/3) on.
+	for n := 1; n <= maxLedger; n++ {
+		rng := r.Rand(fmt.Sprintf("ledger-bk-%d", n))
+		set := pk.NewKeys(rng, n)
+		pubs := pk.Pubs(set)
+		next, err := types.AddressFromBookkeepers(pubs)
+		if err != nil {
+			t.Fatal(err)
+		}
+		oldType := config.DefConfig.Genesis.ConsensusType
+		config.DefConfig.Genesis.ConsensusType = []string{"dbft", "solo", "DBFT"}[n%3]
+		dir := pk.TempDir("c42bk")
+		st, err := ledgerstore.NewLedgerStore(dir)
+		if err != nil {
+			t.Fatal(err)
+		}
+		gen := &types.Block{Header: &types.Header{Timestamp: 1577836800, ConsensusData: uint64(n), NextBookkeeper: next}}
+		if err := st.InitLedgerStoreWithGenesisBlock(gen, pubs); err != nil {
+			t.Fatal(err)
+		}
+		T := blockThreshold(n)
+		offer := func(k int) error {
+			h := &types.Header{PrevBlockHash: gen.Hash(), Timestamp: 1577836801, Height: 1, ConsensusData: uint64(1000*n + k), NextBookkeeper: next, Bookkeepers: pubs}
+			hash := h.Hash()
+			p := rng.Perm(n)
+			for i := 0; i < k; i++ {
+				h.SigData = append(h.SigData, set[p[i]].Sign(hash[:]))
+			}
+			return st.AddHeader(h)
+		}
+		ks := []int{1, T - 1}
+		if n > 3 {
+			ks = append(ks, 1+rng.Intn(T-1))
+		}
+		for _, k := range ks {
+			if k < 1 || k >= T {
+				continue
+			}
+			r.Eval(1)
+			r.Distinct("ledger", "bookkeeper", "header", n, "below", k)
+			if err := offer(k); err == nil {
+				r.Violation("ledger-threshold-below-formula:bookkeeper", fmt.Sprintf("N=%d bookkeeper rule: header with %d signatures accepted, formula says %d", n, k, T), map[string]interface{}{"N": n, "k": k, "formula": T})
+				break
+			}
+			r.Count("ledger_bookkeeper_refused_below", 1)
+		}
+		if st.GetCurrentHeaderHeight() == 0 {
+			r.Eval(1)
+			r.Distinct("ledger", "bookkeeper", "header", n, "at")
+			if err := offer(T); err != nil {
+				r.Violation("ledger-threshold-above-formula:bookkeeper", fmt.Sprintf("N=%d bookkeeper rule: header with %d signatures refused (%v)", n, T, err), map[string]interface{}{"N": n, "formula": T})
+			} else {
+				r.Count("ledger_bookkeeper_accepted_at_formula", 1)
+			}
+		}
+		st.Close()
+		os.RemoveAll(dir)
+		config.DefConfig.Genesis.ConsensusType = oldType
 	}
 
 	// ---------------- vbft commit quorum (getCommitConsensus through the verif export), with the
